@@ -409,6 +409,9 @@ def runGroups (rev : Bool) : State → List (List Ev) → List (List Out) × Sta
     let early := g.any fun e => match e with
       | .hcmd id _ => g.any (fun e' => match e' with | .syn id' .. => id' == id | _ => false)
       | _ => false
+    -- (the shutdown signal and handler commands reach the serve loop on their own channels: their order relative to the
+    -- frames of a burst is open; bursts are judged only when they consist of client frames)
+    let early := early || g.any fun e => match e with | .graceful => true | .hcmd .. => true | _ => false
     let raced := match g with
       | [_] => false
       | _ => early || let b := seqS rev s g [] false
